@@ -347,6 +347,12 @@ Fixpoint ovl_eqb (a b : list (option value)) : bool :=
                 args, kwargs = gen_call(rng, sig, pool)
                 calls.append(dict(m=rng.randrange(len(ms)), args=args, kwargs=kwargs))
             out.append(dict(methods=ms, calls=calls))
+        # one decorator object (a project-wide `project_cached = cached(version=..., ignore_kwargs=...)`) applied to several
+        # methods of the class: the same version and ignore list, different names
+        for c in out[:8]:
+            first = c['methods'][0]
+            ms = [dict(first, name=f'load_{i}') for i in range(len(c['methods']))]
+            out.append(dict(methods=ms, calls=c['calls'] + c['calls'][:2], shared_decorator=True))
         return out
 
     def run_impl(self, case):
@@ -362,10 +368,14 @@ Fixpoint ovl_eqb (a b : list (option value)) : bool :=
                 return {'binding': canon_py(binding), 'method': tag}
 
         fns = []
+        shared = None
+        if case.get('shared_decorator'):
+            m0 = case['methods'][0]
+            shared = cached(ignore_kwargs=list(m0['ignore']), version=m0['version'])
         for i, m in enumerate(case['methods']):
             raw = make_method(m['sig'], i)
             raw.__name__ = m['name']
-            fns.append(cached(ignore_kwargs=list(m['ignore']), version=m['version'])(raw))
+            fns.append((shared or cached(ignore_kwargs=list(m['ignore']), version=m['version']))(raw))
         o = Obj()
         results = [[fns[c['m']](o, *c['args'], **dict(c['kwargs']))] for c in case['calls']]
         return dict(results=results, ran=o.ran)
